@@ -1,0 +1,153 @@
+//  Copyright (c) 2026 Couchbase, Inc.
+//
+// Licensed under the Apache License, Version 2.0 (the "License");
+// you may not use this file except in compliance with the License.
+// You may obtain a copy of the License at
+//
+// 		http://www.apache.org/licenses/LICENSE-2.0
+//
+// Unless required by applicable law or agreed to in writing, software
+// distributed under the License is distributed on an "AS IS" BASIS,
+// WITHOUT WARRANTIES OR CONDITIONS OF ANY KIND, either express or implied.
+// See the License for the specific language governing permissions and
+// limitations under the License.
+
+//go:build verif
+
+// Package simhook holds the seams a deterministic simulator uses to take
+// over scheduling decisions. This file is only compiled with the "verif"
+// build tag. All hooks are nil by default, in which case every function
+// here behaves exactly like the plain Go construct it stands for.
+package simhook
+
+import "sync"
+
+// Enabled reports whether the simulation hooks are compiled in.
+const Enabled = true
+
+// Hooks installed by a simulator. All nil by default.
+var (
+	// YieldFn is called at every named step / synchronisation point.
+	YieldFn func(role, point string)
+	// GoFn starts f as a simulator-known task; role names the callee.
+	GoFn func(role string, f func())
+	// SelectOrderFn returns the order in which the n cases of the select
+	// statement at site are polled.
+	SelectOrderFn func(site string, n int) []int
+	// LockWaitFn parks the caller until mutex m may have been released.
+	LockWaitFn func(m any, kind string)
+	// UnlockedFn is told that mutex m was released.
+	UnlockedFn func(m any)
+)
+
+// Yield marks a named step.
+func Yield(role, point string) {
+	if f := YieldFn; f != nil {
+		f(role, point)
+	}
+}
+
+// Go stands for a go statement.
+func Go(role string, f func()) {
+	if g := GoFn; g != nil {
+		g(role, f)
+		return
+	}
+	go f()
+}
+
+// ZeroOf returns the zero value of a channel's element type.
+func ZeroOf[T any](c <-chan T) (z T) { return }
+
+var identity = []int{0, 1, 2, 3, 4, 5, 6, 7, 8, 9, 10, 11, 12, 13, 14, 15}
+
+// SelectOrder returns the polling order for a select statement.
+func SelectOrder(site string, n int) []int {
+	if f := SelectOrderFn; f != nil {
+		return f(site, n)
+	}
+	return identity[:n]
+}
+
+var (
+	pmu      sync.Mutex
+	pendingW = map[any]int{}
+)
+
+type locker interface {
+	Lock()
+	Unlock()
+}
+
+type rlocker interface {
+	RLock()
+	RUnlock()
+}
+
+// Lock stands for m.Lock(). Under a simulator it never blocks inside the
+// runtime: it spins on TryLock, parking through LockWaitFn in between.
+func Lock(m any) {
+	w := LockWaitFn
+	if w == nil {
+		m.(locker).Lock()
+		return
+	}
+	switch mu := m.(type) {
+	case *sync.Mutex:
+		for !mu.TryLock() {
+			w(m, "lock")
+		}
+	case *sync.RWMutex:
+		// reproduce Go's writer preference: a pending writer blocks
+		// new readers
+		pmu.Lock()
+		pendingW[m]++
+		pmu.Unlock()
+		for !mu.TryLock() {
+			w(m, "wlock")
+		}
+		pmu.Lock()
+		pendingW[m]--
+		if pendingW[m] == 0 {
+			delete(pendingW, m)
+		}
+		pmu.Unlock()
+	default:
+		m.(locker).Lock()
+	}
+}
+
+// RLock stands for m.RLock().
+func RLock(m any) {
+	w := LockWaitFn
+	mu, ok := m.(*sync.RWMutex)
+	if w == nil || !ok {
+		m.(rlocker).RLock()
+		return
+	}
+	for {
+		pmu.Lock()
+		p := pendingW[m]
+		pmu.Unlock()
+		if p == 0 && mu.TryRLock() {
+			return
+		}
+		w(m, "rlock")
+	}
+}
+
+// Unlock stands for m.Unlock().
+func Unlock(m any) {
+	m.(locker).Unlock()
+	if f := UnlockedFn; f != nil {
+		f(m)
+	}
+}
+
+// RUnlock stands for m.RUnlock().
+func RUnlock(m any) {
+	m.(rlocker).RUnlock()
+	if f := UnlockedFn; f != nil {
+		f(m)
+	}
+}
